@@ -15,7 +15,12 @@ Definition cpdag_structure_stmt : Prop := forall d ord, is_dag d -> topo d ord -
     incl c (D d) /\ incl r (D d) /\ (forall e, In e c -> ~ In e r) /\
     (forall a b, Padj (mkp (V d) c r) a b <-> Padj d a b).
 
-(* clause 2, FULL statement (Chickering 2002, Thm 8 + Alg. 4/5). Proved below only for n <= 4 nodes. *)
+(* unbounded, proved (C04/VStruct.v): every v-structure edge is compelled, hence the CPDAG has exactly d's v-structures *)
+Definition cpdag_vstructs_stmt : Prop := forall d ord c r, is_dag d -> topo d ord -> cpdag_model d ord = Some (V d, c, r) ->
+  forall a y b, Vstr (mkp (V d) c r) a y b <-> Vstr d a y b.
+
+(* clause 2, FULL statement (Chickering 2002, Thm 8 + Alg. 4/5). Proved for every DAG on the nodes 0..n-1, n <= 5, every topological order
+   (C04/Bounded_5.v); not proved for larger graphs. *)
 Definition cpdag_essential_stmt : Prop := forall d ord, is_dag d -> topo d ord ->
   exists c r, cpdag_model d ord = Some (V d, c, r) /\ forall a b, In (a, b) c <-> essential d a b.
 
